@@ -7,15 +7,15 @@ set_option linter.unusedSimpArgs false
 set_option linter.unusedVariables false
 namespace MitmVerif.C43
 
-/-- the invariant of store/view/cache/settings; `x` is a flow whose attributes have just changed (its cached key
-    may be stale and it may be on the wrong side of the filter) -/
-structure Core (s : VS) (x : Option Nat) : Prop where
+/-- the invariant of store/view/cache; `D` lists the flows whose attributes have changed since the view last
+    evaluated them (their cached key may be stale and they may be on the wrong side of the filter) -/
+structure Core (s : VS) (D : List Nat) : Prop where
   storeNodup : s.store.Nodup
   viewNodup : s.view.Nodup
   viewSub : ∀ g, g ∈ s.view → g ∈ s.store
   sorted : SortedBy (ck s) s.view
-  cached : ∀ g, g ∈ s.view → ∃ k, s.cache g s.slot = some k ∧ (some g ≠ x → k = gen s g)
-  vis : ∀ g, g ∈ s.store → some g ≠ x → (g ∈ s.view ↔ visible s g = true)
+  cached : ∀ g, g ∈ s.view → ∃ k, s.cache g s.slot = some k ∧ (g ∉ D → k = gen s g)
+  vis : ∀ g, g ∈ s.store → g ∉ D → (g ∈ s.view ↔ visible s g = true)
 
 /-- settings entries of the result are old entries or belong to stored flows -/
 def SB (s s' : VS) : Prop := ∀ g, g ∈ s'.settings → g ∈ s.settings ∨ g ∈ s.store
@@ -37,7 +37,7 @@ theorem visible_eq_of {s s' : VS} (ha : s'.attrs = s.attrs) (hm : s'.showMarked 
   simp [visible, ha, hm, hf]
 
 /-- states that agree on everything the invariant talks about -/
-theorem core_same {s s' : VS} {x : Option Nat} (h : Core s x)
+theorem core_same {s s' : VS} {x : List Nat} (h : Core s x)
     (ha : s'.attrs = s.attrs) (hst : s'.store = s.store) (hv : s'.view = s.view)
     (hc : s'.cache = s.cache) (hf : s'.filt = s.filt) (hm : s'.showMarked = s.showMarked) (hsl : s'.slot = s.slot) :
     Core s' x := by
@@ -51,10 +51,10 @@ theorem core_same {s s' : VS} {x : Option Nat} (h : Core s x)
   · intro g hg hx
     rw [hv, visible_eq_of ha hm hf]; exact h.vis g (hst ▸ hg) hx
 
-theorem core_emit {s : VS} {x : Option Nat} (h : Core s x) (g : Sig) : Core (emit s g) x :=
+theorem core_emit {s : VS} {x : List Nat} (h : Core s x) (g : Sig) : Core (emit s g) x :=
   core_same h rfl rfl rfl rfl rfl rfl rfl
 
-theorem ck_frame {s s' : VS} {x : Option Nat} (h : Core s x) (hf : Frame s s') (g : Nat) (hg : g ∈ s.view) :
+theorem ck_frame {s s' : VS} {x : List Nat} (h : Core s x) (hf : Frame s s') (g : Nat) (hg : g ∈ s.view) :
     s'.cache g s'.slot = s.cache g s.slot := by
   obtain ⟨k, h1, _⟩ := h.cached g hg
   rw [hf.slot]
@@ -62,7 +62,7 @@ theorem ck_frame {s s' : VS} {x : Option Nat} (h : Core s x) (hf : Frame s s') (
   · exact h'
   · rw [h1] at hn; cases hn
 
-theorem core_frame {s s' : VS} {x : Option Nat} (h : Core s x) (hf : Frame s s') : Core s' x := by
+theorem core_frame {s s' : VS} {x : List Nat} (h : Core s x) (hf : Frame s s') : Core s' x := by
   refine ⟨hf.store ▸ h.storeNodup, hf.view ▸ h.viewNodup, ?_, ?_, ?_, ?_⟩
   · intro g hg; rw [hf.store]; exact h.viewSub g (hf.view ▸ hg)
   · rw [hf.view]
@@ -76,38 +76,41 @@ theorem core_frame {s s' : VS} {x : Option Nat} (h : Core s x) (hf : Frame s s')
   · intro g hg hx
     rw [hf.view, visible_eq_of hf.attrs hf.showMarked hf.filt]; exact h.vis g (hf.store ▸ hg) hx
 
-theorem core_weaken {s : VS} (h : Core s none) (f : Nat) : Core s (some f) :=
+theorem core_weaken {s : VS} {D D' : List Nat} (h : Core s D) (hsub : ∀ g, g ∈ D → g ∈ D') : Core s D' :=
   ⟨h.storeNodup, h.viewNodup, h.viewSub, h.sorted,
-    fun g hg => by obtain ⟨k, h1, h2⟩ := h.cached g hg; exact ⟨k, h1, fun _ => h2 (by simp)⟩,
-    fun g hg _ => h.vis g hg (by simp)⟩
+    fun g hg => by obtain ⟨k, h1, h2⟩ := h.cached g hg; exact ⟨k, h1, fun hx => h2 (fun hd => hx (hsub g hd))⟩,
+    fun g hg hx => h.vis g hg (fun hd => hx (hsub g hd))⟩
 
-/-- the exemption can be dropped once the exempted flow is on the right side of the filter with a fresh key -/
-theorem core_drop {s : VS} {f : Nat} (h : Core s (some f))
+theorem not_mem_without {D : List Nat} {f g : Nat} (hne : g ≠ f) (h : g ∉ D.filter (fun x => x != f)) : g ∉ D := by
+  intro hd; apply h; rw [List.mem_filter]; exact ⟨hd, by simpa using hne⟩
+
+/-- a flow becomes current again once it is on the right side of the filter with a fresh key -/
+theorem core_drop {s : VS} {D : List Nat} {f : Nat} (h : Core s D)
     (hv : f ∈ s.store → (f ∈ s.view ↔ visible s f = true))
-    (hc : f ∈ s.view → s.cache f s.slot = some (gen s f)) : Core s none := by
+    (hc : f ∈ s.view → s.cache f s.slot = some (gen s f)) : Core s (D.filter (fun x => x != f)) := by
   refine ⟨h.storeNodup, h.viewNodup, h.viewSub, h.sorted, ?_, ?_⟩
   · intro g hg
     by_cases hgf : g = f
     · subst hgf; exact ⟨_, hc hg, fun _ => rfl⟩
     · obtain ⟨k, h1, h2⟩ := h.cached g hg
-      exact ⟨k, h1, fun _ => h2 (by simpa using hgf)⟩
-  · intro g hg _
+      exact ⟨k, h1, fun hx => h2 (not_mem_without hgf hx)⟩
+  · intro g hg hx
     by_cases hgf : g = f
     · subst hgf; exact hv hg
-    · exact h.vis g hg (by simpa using hgf)
+    · exact h.vis g hg (not_mem_without hgf hx)
 
-theorem core_setAttr {s : VS} (h : Core s none) (f : Nat) (a : Attr) : Core (setAttr s f a) (some f) := by
+theorem core_setAttr {s : VS} {D : List Nat} (h : Core s D) (f : Nat) (a : Attr) : Core (setAttr s f a) (f :: D) := by
   refine ⟨h.storeNodup, h.viewNodup, h.viewSub, h.sorted, ?_, ?_⟩
   · intro g hg
     obtain ⟨k, h1, h2⟩ := h.cached g hg
     refine ⟨k, h1, fun hx => ?_⟩
-    have hne : g ≠ f := by simpa using hx
-    rw [h2 (by simp)]
-    try simp [gen, setAttr, hne]
+    have hx' : g ≠ f ∧ g ∉ D := by simpa using hx
+    rw [h2 hx'.2]
+    try simp [gen, setAttr, hx'.1]
   · intro g hg hx
-    have hne : g ≠ f := by simpa using hx
-    have : visible (setAttr s f a) g = visible s g := by simp [visible, setAttr, hne]
-    rw [this]; exact h.vis g hg (by simp)
+    have hx' : g ≠ f ∧ g ∉ D := by simpa using hx
+    have : visible (setAttr s f a) g = visible s g := by simp [visible, setAttr, hx'.1]
+    rw [this]; exact h.vis g hg hx'.2
 
 /-! ### cache writes -/
 
@@ -166,8 +169,8 @@ theorem mem_baseAdd_settings (s : VS) (f g : Nat) : g ∈ (baseAdd s f).settings
   simp only [baseAdd, freshen]; exact mem_setCache_settings s f _ g
 
 /-- inserting a stored, not yet shown flow with a fresh key -/
-theorem core_baseAdd {s : VS} {f : Nat} (h : Core s (some f)) (hst : f ∈ s.store) (hnv : f ∉ s.view) :
-    Core (baseAdd s f) (some f) ∧ (baseAdd s f).cache f (baseAdd s f).slot = some (gen (baseAdd s f) f) := by
+theorem core_baseAdd {s : VS} {D : List Nat} {f : Nat} (h : Core s D) (hD : f ∈ D) (hst : f ∈ s.store) (hnv : f ∉ s.view) :
+    Core (baseAdd s f) D ∧ (baseAdd s f).cache f (baseAdd s f).slot = some (gen (baseAdd s f) f) := by
   have e := baseAdd_fields s f
   have hgen : ∀ g, gen (baseAdd s f) g = gen s g := gen_eq_of e.1 e.2.2.1
   have hself : (baseAdd s f).cache f (baseAdd s f).slot = some (gen s f) := by
@@ -206,7 +209,7 @@ theorem core_baseAdd {s : VS} {f : Nat} (h : Core s (some f)) (hst : f ∈ s.sto
       · obtain ⟨k, h1, h2⟩ := h.cached g hg'
         exact ⟨k, by rw [hoth g hgf]; exact h1, fun hx => by rw [hgen]; exact h2 hx⟩
   · intro g hg hx
-    have hne : g ≠ f := by simpa using hx
+    have hne : g ≠ f := fun h' => hx (h' ▸ hD)
     rw [mem_baseAdd_view, visible_eq_of e.1 e.2.2.2.2.1 e.2.2.2.1]
     rw [e.2.1] at hg
     constructor
@@ -227,8 +230,8 @@ theorem focus_mono {s s' : VS} (hfo : s'.focus = s.focus) (hsub : ∀ g, g ∈ s
   hsub g (hok g (hfo ▸ hg))
 
 /-- everything `enterView` guarantees -/
-structure EnterSpec (s s' : VS) (f : Nat) : Prop where
-  core : Core s' none
+structure EnterSpec (s s' : VS) (D : List Nat) (f : Nat) : Prop where
+  core : Core s' (D.filter (fun x => x != f))
   focus : FocusOK s'
   crash : s'.crash = s.crash
   sigs : sigs s' = sigs s ++ [.vadd f]
@@ -239,9 +242,9 @@ structure EnterSpec (s s' : VS) (f : Nat) : Prop where
   reversed : s'.reversed = s.reversed
   settings : SB s s'
 
-theorem enterView_spec {s : VS} {f : Nat} (h : Core s (some f)) (hst : f ∈ s.store) (hnv : f ∉ s.view)
-    (hvis : visible s f = true) (hfo : ∀ g, s.focus = some g → g ∈ s.view) : EnterSpec s (enterView s f) f := by
-  obtain ⟨hc, hfresh⟩ := core_baseAdd h hst hnv
+theorem enterView_spec {s : VS} {D : List Nat} {f : Nat} (h : Core s D) (hD : f ∈ D) (hst : f ∈ s.store) (hnv : f ∉ s.view)
+    (hvis : visible s f = true) (hfo : ∀ g, s.focus = some g → g ∈ s.view) : EnterSpec s (enterView s f) D f := by
+  obtain ⟨hc, hfresh⟩ := core_baseAdd h hD hst hnv
   have e := baseAdd_fields s f
   have hfin : f ∈ (baseAdd s f).view := (mem_baseAdd_view s f f).mpr (Or.inl rfl)
   -- focus-follow
@@ -266,12 +269,12 @@ theorem enterView_spec {s : VS} {f : Nat} (h : Core s (some f)) (hst : f ∈ s.s
   have hfin3 : f ∈ s3.view := hf3.view ▸ hfin
   obtain ⟨hok, hcr4⟩ := onViewAdd_ok hfin3 hfo3
   have hf4 : Frame (baseAdd s f) (onViewAdd s3 f) := hf3.trans (frame_onViewAdd s3 f)
-  have hcore4 : Core (onViewAdd s3 f) (some f) := core_frame hc hf4
+  have hcore4 : Core (onViewAdd s3 f) D := core_frame hc hf4
   have hvis4 : visible (onViewAdd s3 f) f = visible s f := by
     rw [visible_eq_of hf4.attrs hf4.showMarked hf4.filt, visible_eq_of e.1 e.2.2.2.2.1 e.2.2.2.1]
   have hcache4 : (onViewAdd s3 f).cache f (onViewAdd s3 f).slot = some (gen (onViewAdd s3 f) f) := by
     rw [ck_frame hc hf4 f hfin, hfresh, gen_eq_of hf4.attrs hf4.slot]
-  have hcore5 : Core (onViewAdd s3 f) none :=
+  have hcore5 : Core (onViewAdd s3 f) (D.filter (fun x => x != f)) :=
     core_drop hcore4 (fun _ => ⟨fun _ => by rw [hvis4]; exact hvis, fun _ => hf4.view ▸ hfin⟩) (fun _ => hcache4)
   have hunf : enterView s f = emit (onViewAdd s3 f) (.vadd f) := rfl
   rw [hunf]
@@ -296,18 +299,18 @@ theorem enterView_spec {s : VS} {f : Nat} (h : Core s (some f)) (hst : f ∈ s.s
 
 /-! ### taking a flow out of the list -/
 
-theorem core_eraseView {s : VS} {f : Nat} (h : Core s (some f)) :
-    Core { s with view := s.view.erase f } (some f) := by
+theorem core_eraseView {s : VS} {D : List Nat} {f : Nat} (h : Core s D) (hD : f ∈ D) :
+    Core { s with view := s.view.erase f } D := by
   refine ⟨h.storeNodup, h.viewNodup.erase f, ?_, sortedBy_erase f h.sorted, ?_, ?_⟩
   · intro g hg; exact h.viewSub g (List.mem_of_mem_erase hg)
   · intro g hg; exact h.cached g (List.mem_of_mem_erase hg)
   · intro g hg hx
-    have hne : g ≠ f := by simpa using hx
+    have hne : g ≠ f := fun h' => hx (h' ▸ hD)
     show g ∈ s.view.erase f ↔ _
     rw [List.mem_erase_of_ne hne]; exact h.vis g hg hx
 
-structure LeaveSpec (s s' : VS) (f : Nat) : Prop where
-  core : Core s' (some f)
+structure LeaveSpec (s s' : VS) (D : List Nat) (f : Nat) : Prop where
+  core : Core s' D
   focus : FocusOK s'
   crash : s'.crash = s.crash
   sigs : sigs s' = sigs s ++ [.vrm f (s.view.idxOf f)]
@@ -319,9 +322,9 @@ structure LeaveSpec (s s' : VS) (f : Nat) : Prop where
   showMarked : s'.showMarked = s.showMarked
   settings : SB s s'
 
-theorem leaveView_spec {s : VS} {f : Nat} (h : Core s (some f)) (hv : f ∈ s.view) (hfo : FocusOK s) :
-    LeaveSpec s (leaveView s f) f := by
-  have hc := core_eraseView h
+theorem leaveView_spec {s : VS} {D : List Nat} {f : Nat} (h : Core s D) (hD : f ∈ D) (hv : f ∈ s.view) (hfo : FocusOK s) :
+    LeaveSpec s (leaveView s f) D f := by
+  have hc := core_eraseView h hD
   have hfr := frame_onViewRemove { s with view := s.view.erase f } f (s.view.idxOf f)
   have hok := onViewRemove_ok (s := { s with view := s.view.erase f }) (f := f) (idx := s.view.idxOf f)
     (old := s.view) rfl
@@ -343,8 +346,8 @@ theorem leaveView_spec {s : VS} {f : Nat} (h : Core s (some f)) (hv : f ∈ s.vi
 
 /-! ### `_OrderKey.refresh` -/
 
-structure RefreshSpec (s s' : VS) (f : Nat) : Prop where
-  core : Core s' none
+structure RefreshSpec (s s' : VS) (D : List Nat) (f : Nat) : Prop where
+  core : Core s' (D.filter (fun x => x != f))
   focus : FocusOK s'
   crash : s'.crash = s.crash
   sigs : sigs s' = sigs s ∨ sigs s' = sigs s ++ [.vrefresh]
@@ -353,8 +356,8 @@ structure RefreshSpec (s s' : VS) (f : Nat) : Prop where
   err : s'.err = s.err
   settings : SB s s'
 
-theorem refreshKey_spec {s : VS} {f : Nat} (h : Core s (some f)) (hst : f ∈ s.store) (hv : f ∈ s.view)
-    (hvis : visible s f = true) (hfo : FocusOK s) : RefreshSpec s (refreshKey s f) f := by
+theorem refreshKey_spec {s : VS} {D : List Nat} {f : Nat} (h : Core s D) (hD : f ∈ D) (hst : f ∈ s.store) (hv : f ∈ s.view)
+    (hvis : visible s f = true) (hfo : FocusOK s) : RefreshSpec s (refreshKey s f) D f := by
   obtain ⟨old, hold, _⟩ := h.cached f hv
   have he := frame_ensure s f hst
   have ef := ensure_fields s f
@@ -377,8 +380,8 @@ theorem refreshKey_spec {s : VS} {f : Nat} (h : Core s (some f)) (hst : f ∈ s.
     let s3 : VS := { s2 with view := sortedInsert (ck s2) f s2.view }
     have hunf : refreshKey s f = emit (onRefresh s3) .vrefresh := by
       simp only [refreshKey, hold, hgen0, heq, if_false, s3, s2, s1]
-    have hc0 : Core (ensure s f) (some f) := core_frame h he
-    have hc1 : Core s1 (some f) := core_eraseView hc0
+    have hc0 : Core (ensure s f) D := core_frame h he
+    have hc1 : Core s1 D := core_eraseView hc0 hD
     have hnv1 : f ∉ s1.view := by
       show f ∉ (ensure s f).view.erase f
       exact fun hm => (List.Nodup.mem_erase_iff hc0.viewNodup).mp hm |>.1 rfl
@@ -386,7 +389,7 @@ theorem refreshKey_spec {s : VS} {f : Nat} (h : Core s (some f)) (hst : f ∈ s.
     have hgen1 : gen s1 f = gen s f := hgen0
     have hb : s3 = baseAdd s1 f := by
       simp only [s3, s2, baseAdd, freshen, hgen1]
-    obtain ⟨hc3, hfresh3⟩ := core_baseAdd hc1 hst1 hnv1
+    obtain ⟨hc3, hfresh3⟩ := core_baseAdd hc1 hD hst1 hnv1
     rw [← hb] at hc3 hfresh3
     have e3 := baseAdd_fields s1 f
     rw [← hb] at e3
@@ -402,7 +405,7 @@ theorem refreshKey_spec {s : VS} {f : Nat} (h : Core s (some f)) (hst : f ∈ s.
       rw [visible_eq_of e3.1 e3.2.2.2.2.1 e3.2.2.2.1]
       show visible (ensure s f) f = true
       rw [visible_eq_of ef.1 ef.2.2.2.2.2.2.2.2.2.1 ef.2.2.2.2.2.2.2.2.1]; exact hvis
-    have hcore3 : Core s3 none :=
+    have hcore3 : Core s3 (D.filter (fun x => x != f)) :=
       core_drop hc3 (fun _ => ⟨fun _ => hvis3, fun _ => (hmem3 f).mpr hv⟩) (fun _ => hfresh3)
     have hfr := frame_onRefresh s3
     have hok := onRefresh_ok s3
